@@ -312,7 +312,14 @@ class DictDecoder:
             # field can support any object return the value as it is
             return value
 
-        value = converter.serialize(value)
+        try:
+            value = converter.serialize(value)
+        except TypeError as e:
+            # A null item in a list of tokens can not be joined
+            raise ParserError(
+                f"Failed to bind '{value}' "
+                f"to {meta.clazz.__qualname__}.{var.name} field: {e}"
+            )
 
         # Convert value according to the field types
         return ParserUtils.parse_var(
